@@ -779,6 +779,10 @@ def verify_directory_hash_subcommand(
 
                 num_successful_verifications = 0
                 for directory_hash_entry in directory_hash_entries:
+                    # directory hashes recorded in a format that is not calculated in this run can't be compared
+                    if directory_hash_entry.hash_format not in hash_format_list:
+                        continue
+
                     content_hash = None
                     structure_hash = None
 
@@ -857,6 +861,8 @@ def verify_directory_hash_subcommand(
                 if len(root_hash_entries) > 0:
                     for root_hash_entry in root_hash_entries:
                         hash_format = root_hash_entry.hash_format
+                        if hash_format not in hash_format_list:
+                            continue
                         found_hash_format = False
                         dir_content_hash = None
                         dir_structure_hash = None
